@@ -34,6 +34,10 @@ def main(ctx):
     for ident, src in progen.completion_probes():
         cases.append({"id": h(["completion", ident]), "fam": "completion", "ident": ident, "src": src, "sloppy": True})
     rng = random.Random(ctx.seed)
+    hr = random.Random(ctx.seed * 31 + 7)
+    for i in range(600 if ctx.quick else 12000):
+        src = progen.hoisting_program(hr)
+        cases.append({"id": h(["hoist", src]), "fam": "hoisting", "ident": i, "src": src})
     nrand = 1500 if ctx.quick else 40000
     for i in range(nrand):
         src = progen.random_program(rng)
